@@ -48,7 +48,8 @@ theorem dlOf_fresh (log : List (Nat × Nat × Int × Bool)) (n : Nat) (h : ∀ e
 theorem PInv_same_pids {s s' : State} {t : Nat} {new : List Frame} (inv : PInv s)
     (hst : s'.stacks = upd s.stacks t new) (hp : framePids new = framePids (s.stacks t))
     (hn : s'.nextPid = s.nextPid) (he : s'.ended = s.ended) (hl : s'.log = s.log)
-    (hfr : ∀ f, .pub f ∈ new → .pub f ∈ s.stacks t) : PInv s' := by
+    (hfr : ∀ g, .pub g ∈ new → ∃ g0, .pub g0 ∈ s.stacks t ∧ g0.pid = g.pid ∧ g0.dl = g.dl ∧ g0.val = g.val) :
+    PInv s' := by
   have hfp : ∀ u, framePids (s'.stacks u) = framePids (s.stacks u) := by
     intro u; rw [hst]; by_cases hu : u = t
     · subst hu; rw [upd_same, hp]
@@ -64,14 +65,18 @@ theorem PInv_same_pids {s s' : State} {t : Nat} {new : List Frame} (inv : PInv s
     rw [hl]
     rw [hst] at h
     by_cases hu : u = t
-    · subst hu; rw [upd_same] at h; exact inv.live u f (hfr f h)
+    · subst hu; rw [upd_same] at h
+      obtain ⟨g0, hg0, hp0, hd0, _⟩ := hfr f h
+      rw [← hp0, ← hd0]; exact inv.live u g0 hg0
     · rw [upd_other _ _ _ _ hu] at h; exact inv.live u f h
   · intro r h; rw [he] at h; rw [hl]; exact inv.fin r h
   · intro u f h
     rw [hl]
     rw [hst] at h
     by_cases hu : u = t
-    · subst hu; rw [upd_same] at h; exact inv.liveV u f (hfr f h)
+    · subst hu; rw [upd_same] at h
+      obtain ⟨g0, hg0, hp0, _, hv0⟩ := hfr f h
+      rw [← hp0, ← hv0]; exact inv.liveV u g0 hg0
     · rw [upd_other _ _ _ _ hu] at h; exact inv.liveV u f h
   · intro r h; rw [he] at h; rw [hl]; exact inv.finV r h
 
@@ -86,14 +91,21 @@ theorem PInv_step (fixed : Bool) (grow : Nat → Nat) {s s' : State} (a : Act) (
     split at hs
     · cases hs
       exact PInv_same_pids (t := t) (new := s.stacks t) inv (by funext u; simp [upd]; intro h; rw [h]) rfl rfl rfl rfl
-        (fun f h => h)
+        (fun f h => ⟨f, h, rfl, rfl, rfl⟩)
+    · cases hs
+  | subscribeNil t =>
+    simp only [step] at hs
+    split at hs
+    · cases hs
+      exact PInv_same_pids (t := t) (new := s.stacks t) inv (by funext u; simp [upd]; intro h; rw [h]) rfl rfl rfl rfl
+        (fun f h => ⟨f, h, rfl, rfl, rfl⟩)
     · cases hs
   | unsubBegin t x =>
     simp only [step] at hs
     split at hs
     · cases hs
       exact PInv_same_pids (t := t) inv rfl (by simp [framePids]) rfl rfl rfl
-        (fun f h => by simpa using h)
+        (fun f h => ⟨f, by simpa using h, rfl, rfl, rfl⟩)
     · cases hs
   | unsubStep t =>
     simp only [step] at hs
@@ -102,10 +114,10 @@ theorem PInv_step (fixed : Bool) (grow : Nat → Nat) {s s' : State} (a : Act) (
       split at hs
       · cases hfx : fixed <;> simp only [hfx] at hs <;> cases hs <;>
           exact PInv_same_pids (t := t) (new := s.stacks t) inv (by funext u; simp [upd]; intro h; rw [h]) rfl rfl rfl rfl
-            (fun f h => h)
+            (fun f h => ⟨f, h, rfl, rfl, rfl⟩)
       · cases hs
         exact PInv_same_pids (t := t) inv rfl (by rw [hst]; simp [framePids]) rfl rfl rfl
-          (fun f h => by rw [hst]; exact List.mem_cons_of_mem _ h)
+          (fun f h => ⟨f, by rw [hst]; exact List.mem_cons_of_mem _ h, rfl, rfl, rfl⟩)
     · cases hs
   | pubBegin t v =>
     simp only [step] at hs
@@ -239,6 +251,13 @@ theorem PInv_step (fixed : Bool) (grow : Nat → Nat) {s s' : State} (a : Act) (
             · exact inv.finV r h e he hpe
         split at hs
         · cases hs
+          exact PInv_same_pids (t := t) inv rfl (by rw [hst]; rfl) rfl rfl rfl
+            (fun g h => by
+              rcases List.mem_cons.1 h with h | h
+              · cases h; exact ⟨f, by rw [hst]; simp, rfl, rfl, rfl⟩
+              · exact ⟨g, by rw [hst]; exact List.mem_cons_of_mem _ h, rfl, rfl, rfl⟩)
+        split at hs
+        · cases hs
           exact key true _ { f with k := f.k + 1, dl := f.dl ++ [readCell s.heap f.h f.k] } rfl rfl rfl rfl
             (fun g h => by
               rcases List.mem_cons.1 h with h | h
@@ -260,7 +279,7 @@ theorem PInv_step (fixed : Bool) (grow : Nat → Nat) {s s' : State} (a : Act) (
     · rename_i rest hst
       cases hs
       exact PInv_same_pids (t := t) inv rfl (by rw [hst]; simp [framePids]) rfl rfl rfl
-        (fun f h => by rw [hst]; exact List.mem_cons_of_mem _ h)
+        (fun f h => ⟨f, by rw [hst]; exact List.mem_cons_of_mem _ h, rfl, rfl, rfl⟩)
     · cases hs
   | pubEnd t =>
     simp only [step] at hs
@@ -320,7 +339,7 @@ theorem PInv_step (fixed : Bool) (grow : Nat → Nat) {s s' : State} (a : Act) (
     split at hs
     · cases hs
       exact PInv_same_pids (t := t) (new := s.stacks t) inv (by funext u; simp [upd]; intro h; rw [h]) rfl rfl rfl rfl
-        (fun f h => h)
+        (fun f h => ⟨f, h, rfl, rfl, rfl⟩)
     · cases hs
   | hrun t =>
     simp only [step] at hs
